@@ -130,6 +130,10 @@ func vp_C14_auth_chain() {
 	msg := vpSetAuth(vpMkEvent(ver, "$msg:x", h.room, vpBob, "m.room.message", nil, vpJObj("body", "hi")), []string{h.createID, "$pl:x", member}, 9, 9)
 	store := map[string]PDU{h.createID: h.create, "$join:x": h.join, "$pl:x": pl, "$jr:x": jr, "$bj:x": bj, "$bl:x": bl}
 	asked := map[string]int{}
+	// provider behaviour: complete answers, or one event is left out of every answer to a request for several
+	// events and only handed over when asked for on its own (it is then fetched late, during the auth check of the
+	// event citing it, and must still be checked itself)
+	bulkOmits := vpChoice("provider_omits_from_bulk_answers", "nothing", "$bj:x", "$jr:x", "$pl:x")
 	provider := func(roomVer RoomVersion, ids []string) ([]PDU, error) {
 		if fault == "provider-error" {
 			return nil, errors.New("cannot fetch")
@@ -137,6 +141,9 @@ func vp_C14_auth_chain() {
 		var out []PDU
 		for _, id := range ids {
 			asked[id]++
+			if len(ids) > 1 && id == bulkOmits {
+				continue
+			}
 			if e, ok := store[id]; ok {
 				out = append(out, e)
 			}
